@@ -54,11 +54,11 @@ ASSUMPTIONS = ['SequentialIntegerAttributeDecoder: PreparePortableAttribute / Ge
                'point_ids.size() < 2^31 / num_components (the cast static_cast<int>(num_entries) and the product num_entries * num_components are caller obligations: the number of points is checked against the stream length by the callers)']
 # The sizes in this function are products num_entries * num_components * sizeof: with a SYMBOLIC component count the solver has to relate the multiplier
 # in the code to the one in the stub contracts (measured: no answer in 15 min); with the count fixed per job every product is by a constant.
-# Quick tier: counts <= 0 (refused) and 1..8; thorough: 9..32.
+# Quick tier: counts <= 0 (refused), 1..6 and 8; thorough: the rest up to 32 (7 alone needs ~15 min: a multiplier by 7 on both sides).
 for nc in [0] + list(range(1, 33)):
     J('DecodeIntegerValues.contract.nc%d' % nc, 'h_enf_SIAD_DecodeIntegerValues', ['C02', 'C03', 'C18'], enforce='SIAD_DecodeIntegerValues', loops=True, defines=DEFS + ['-DATTR_NC=%d' % nc],
       replace=['DecoderBuffer_DecodeBytes', 'DecodeSymbols', 'ConvertSymbolsToSignedInts_inplace', 'PS_AreCorrectionsPositive', 'PS_DecodePredictionData', 'PS_ComputeOriginalValues'],
-      timeout=900, cost=4, cbmc=['--object-bits', '11'], tier=None if nc <= 8 else 'thorough', no_vacuity=nc > 2)
+      timeout=900, cost=4, cbmc=['--object-bits', '11'], tier=None if nc in (0, 1, 2, 3, 4, 5, 6, 8) else 'thorough', no_vacuity=nc > 2)
 J('rawvalues.rt', 'h_rawvalues_rt', ['C04', 'C05', 'C01'], unwind=34,
   unwind_reason='bounded: num_values <= 3 (loops over the values; 32-byte model initialisation; byte copies of <= 12 bytes); all symbol values; unwinding assertions on')
 J('ConvertSymbolsToSignedInts.inplace.contract', 'h_enf_ConvertSymbolsToSignedInts_inplace', ['C02', 'C17'], enforce='ConvertSymbolsToSignedInts_inplace', loops=True, timeout=900, cost=4)
